@@ -143,19 +143,21 @@ def _verdict(o, fn, t, rts, what, node):
     # `for k: row[0] = k; d[tuple(row)] = ..`) is summarised as a loop-carried value; whether each iteration overwrites all
     # that the previous one wrote is not decided here
     def _is_buffer_init(init):
-        # an accumulator that starts empty or at a number (a memo table, a running total, a growing list) is NOT such a
-        # buffer: what it makes of the formula is compared as usual
+        # a SCRATCH buffer: a fresh fixed-size container (`[0] * n`, a display of constants, numpy zeros / empty) that every
+        # iteration overwrites.  An accumulator that starts empty or at a number, a list built by appends, or an existing object
+        # updated in place is not one: what it makes of the formula is compared as usual
         if not (isinstance(init, tuple) and init and init[0] == "P"):
-            return True
-        if tm.is_const(init) is not None:
             return False
         a = tm.single_atom(init)
-        if a is not None and a[0] in ("attr", "sym"):
-            return False        # an existing object updated in place while the loop reads it: not a scratch buffer
-        if a is not None and (a[0] == "emptydict" or (a[0] in ("list", "tuple", "set", "dict") and len(a) == 2 and not a[1])
-                              or (a[0] == "call" and a[1] in ("list", "dict", "set", "defaultdict", "Counter") and not a[2])):
+        if a is None:
             return False
-        return True
+        if a[0] == "repeat":
+            return True
+        if a[0] in ("list", "tuple") and len(a) == 2 and a[1] and all(tm.is_const(e_) is not None for e_ in a[1]):
+            return True
+        if a[0] == "call" and isinstance(a[1], str) and a[1].split(".")[-1] in ("zeros", "empty", "ones", "full"):
+            return True
+        return False
 
     def _has_running(x):
         return isinstance(x, tuple) and ((len(x) == 3 and x[0] == "running" and _is_buffer_init(x[2])) or any(_has_running(y) for y in x))
